@@ -34,6 +34,17 @@ PLAIN = [
     ("Uri", {"Defects": '{"latin1_unreserved"}', "Tier": '"quick"', "Export": "FALSE"}, "KeyExact", None),
     ("Uri", {"Defects": '{"strip_brackets"}', "Tier": '"quick"', "Export": "FALSE"}, "KeyExact", None),
     ("Uri", {"Defects": '{"rewrite_malformed"}', "Tier": '"quick"', "Export": "FALSE"}, "KeyExact", None),
+    ("MC_enc", {"Defects": '{"unbound"}', "Depth": "4", "Family": '"kv"', "Export": "FALSE"}, "Judged", None),
+    ("MC_enc", {"Defects": '{"static_nonce"}', "Depth": "3", "Family": '"kv"', "Export": "FALSE"}, "FreshNonces", None),
+    ("MC_enc", {"Defects": '{"no_auth"}', "Depth": "3", "Family": '"kv"', "Export": "FALSE"}, "Judged", None),
+    ("MC_enc", {"Defects": '{"serve_damaged"}', "Depth": "3", "Family": '"rt"', "Export": "FALSE"}, "Judged", None),
+    ("MC_enc", {"Defects": '{"lenient_keys"}', "Depth": "1", "Family": '"open"', "Export": "FALSE"}, "Judged", None),
+    ("MC_enc", {"Defects": '{"plain_fallback"}', "Depth": "1", "Family": '"open"', "Export": "FALSE"}, "Judged", None),
+    ("CcSyntax", {"Defects": '{"case_sensitive"}', "Tier": '"quick"', "Export": "FALSE"}, "ParseExact", None),
+    ("CcSyntax", {"Defects": '{"first_line_only"}', "Tier": '"quick"', "Export": "FALSE"}, "ParseExact", None),
+    ("CcSyntax", {"Defects": '{"naive_split"}', "Tier": '"quick"', "Export": "FALSE"}, "ParseExact", None),
+    ("CcSyntax", {"Defects": '{"no_quoted_args"}', "Tier": '"quick"', "Export": "FALSE"}, "CanonicalOK", None),
+    ("Footprint", {"Defects": '{"append_dup"}', "URIs": "{0}", "ValsA": "{0, 1}", "ValsB": "{0}", "VarySets": "{0, 4}", "Export": "FALSE", "MaxHist": "0"}, "Bounded", None),
     ("FsLayout", {"DirMarker": "FALSE", "Threshold": "1", "Frag": "2", "MaxLen": "4"}, "NoFailure", "Small"),
     ("FsAtomic", {"Writers": "{1, 2}", "Readers": "{1}", "Deleters": "{1}", "Vals": "{1, 2}", "Chunks": "2", "WriteMode": '"inplace"', "TmpNames": '"unique"'}, "NoTornRead", None),
     ("FsAtomic", {"Writers": "{1, 2}", "Readers": "{1}", "Deleters": "{1}", "Vals": "{1, 2}", "Chunks": "2", "WriteMode": '"rename"', "TmpNames": '"shared"'}, "NoTornRead", None),
@@ -50,7 +61,8 @@ REVERTS = [
     ("storing a response replaces every older index reference", ["C19"]), ("fscache writes a value to a temporary file", ["C15"]),
     ("directory levels of fragmented", ["C14"]), ("fscache can store a value under the empty key", ["C14"]),
     ("the TE field is removed", ["C05"]), ("connection-level fields written by the entry serialisation", ["C05"]),
-    ("an encrypted fscache entry is bound", ["C17"]),
+    ("an encrypted fscache entry is bound", ["C17"]), ("only-if-cached with max-age=0", ["C11"]),
+    ("fscache lists keys relative", ["C14"]),
 ]
 
 
@@ -159,11 +171,135 @@ def seeded(only=None):
     return bad
 
 
+def _http_scn(sid, steps, backend="mem"):
+    return {"id": sid, "backend": backend, "opt": {}, "steps": steps, "grp": "", "spv": 0}
+
+
+def binding():
+    """the trace acceptors are bound to what the harness records: a recorded trace of the real code passes, and the same trace
+    with ONE field changed, or one event removed, is rejected through the monitor that owns that fact"""
+    import base64
+    import gen
+    rq, ans = gen.rq, gen.ans
+    full = ans(ccp=1, ma=5, etag=1)
+    long_ = ans(ccp=1, ma=50, etag=1)
+    other = ans(ccp=1, ma=50, etag=2)
+    n304 = ans(k="304", st=304, ccp=1, ma=50, etag=1, upd=1)
+    http = [
+        _http_scn("bind/reval", [{"op": "req", "rq": rq(), "ans": [full]}, {"op": "tick", "d": 7}, {"op": "req", "rq": rq(), "ans": [n304]}]),
+        _http_scn("bind/hit", [{"op": "req", "rq": rq(), "ans": [long_]}, {"op": "tick", "d": 3}, {"op": "req", "rq": rq(), "ans": [other]}]),
+        _http_scn("bind/miss", [{"op": "req", "rq": rq(), "ans": [long_]}, {"op": "tick", "d": 3}, {"op": "req", "rq": rq(u=1), "ans": [other]}]),
+        _http_scn("bind/vary", [{"op": "req", "rq": rq(sel=[0, 0, 1, 0]), "ans": [ans(ccp=1, ma=50, etag=1, vary=[2])]}, {"op": "tick", "d": 3},
+                                {"op": "req", "rq": rq(sel=[0, 0, 1, 0]), "ans": [other]}]),
+    ]
+    key = base64.b64encode(b"bind-key").decode()
+    vals = [{"len": 300, "seed": 5}, {"len": 300, "seed": 6}]
+    kv = [
+        {"id": "bind/kv", "backend": "fs", "keys": [key], "vals": vals, "ops": [{"op": "set", "k": 0, "v": 0}, {"op": "get", "k": 0}]},
+        {"id": "bind/enc", "backend": "fsenc", "keys": [key], "vals": vals,
+         "ops": [{"op": "set", "k": 0, "v": 0}, {"op": "tamper", "k": 0, "how": "flip", "pos": 40}, {"op": "get", "k": 0}]},
+    ]
+
+    def ev(evs, kind, x=None, nth=1):
+        c = 0
+        for e in evs:
+            if e["ev"] == kind and (x is None or e.get("x") == x):
+                c += 1
+                if c == nth:
+                    return e
+        raise KeyError(kind)
+
+    def later(evs):
+        ev(evs, "begin", 2)["t"] += 100
+        r = ev(evs, "ret", 2)
+        r["t"] += 100
+        r["t0"] += 100
+
+    def age_off(evs):
+        ev(evs, "ret", 2)["age"] += 10
+
+    def oic(evs):
+        ev(evs, "begin", 2)["rq"]["fl"] = ["only-if-cached"]
+
+    def nostore(evs):
+        c = ev(evs, "call", 1)
+        c["rep"]["ccp"], c["rep"]["fl"] = 1, ["no-store"]
+
+    def other_variant(evs):
+        ev(evs, "begin", 2)["rq"]["sel"] = [0, 0, 2, 0]
+
+    def other_uri(evs):
+        ev(evs, "begin", 2)["rq"]["u"] = 1
+
+    def two_labels(evs):
+        ev(evs, "ret", 2)["nlab"] = 2
+
+    def hop(evs):
+        ev(evs, "op", 1, 2)["hop"] = 1
+
+    def wrong_value(evs):
+        ev(evs, "kv", None, 2)["rv"] = 1
+
+    def torn(evs):
+        ev(evs, "kv", None, 2)["torn"] = 1
+
+    def accepted(evs):
+        g = ev(evs, "kv", None, 3)
+        g["ok"], g["rv"] = 1, 0
+
+    def plaintext(evs):
+        ev(evs, "kv", None, 1)["plain"] = 1
+
+    cases = [("bind/hit", "Trace", later, "C01", "the exchange that was served from the store moved 100 s later (beyond the lifetime)"),
+             ("bind/hit", "Trace", age_off, "C11", "the Age of a hit changed by 10 s"),
+             ("bind/miss", "Trace", oic, "C18", "the request of an exchange that called the origin marked only-if-cached"),
+             ("bind/hit", "Trace", nostore, "C06", "the stored response marked no-store"),
+             ("bind/vary", "Trace", other_variant, "C04", "the selecting value of the request that was served from the store changed"),
+             ("bind/hit", "Trace", other_uri, "C03", "the URI of the request that was served from the store changed"),
+             ("bind/hit", "Trace", two_labels, "C11", "two cache-status labels"),
+             ("bind/hit", "Trace", hop, "C05", "a hop-by-hop marker in the stored bytes"),
+             ("bind/kv", "TraceKV", wrong_value, "C14", "the value a Get returned changed"),
+             ("bind/kv", "TraceKV", torn, "C14", "a Get marked as returning a partial value"),
+             ("bind/enc", "TraceKV", accepted, "C17", "a Get of a damaged encrypted file marked successful"),
+             ("bind/enc", "TraceKV", plaintext, "C17", "plaintext found in the file a Set wrote")]
+    work = vlib.Work("selftest-binding")
+    bad = 0
+    try:
+        binary = vlib.build_harness(work)
+        t1, _ = vlib.run_harness(binary, http, work, 1, nproc=1, tag="bindhttp")
+        t2, _ = vlib.run_harness(binary, kv, work, 1, nproc=1, tag="bindkv", test="TestKV")
+        v1, _, _ = vlib.validate_traces(work, t1, nproc=1)
+        v2, _, _ = vlib.validate_traces(work, t2, nproc=1, module="TraceKV")
+        okay = not v1 and not v2
+        bad += 0 if okay else 1
+        print("%s the recorded traces pass as recorded" % ("ok  " if okay else "FAIL"))
+        for i, (sid, module, fn, prop, what) in enumerate(cases):
+            evs = vlib.scenario_trace((t1 if module == "Trace" else t2)[0], sid)
+            fn(evs)
+            path = work.path("bind%d.ndjson" % i)
+            with open(path, "w") as f:
+                for e in evs:
+                    f.write(json.dumps(e, separators=(",", ":")) + "\n")
+            try:
+                viol, _, _ = vlib.validate_traces(work, [path], nproc=1, module=module)
+                red = sorted({p for v in viol for p in v["props"]})
+            except vlib.Inconclusive as e:
+                red = ["(acceptor failed: %s)" % str(e)[:80]]
+            okay = prop in red
+            bad += 0 if okay else 1
+            print("%s %-8s %-85s -> red: %s" % ("ok  " if okay else "FAIL", prop, what, ",".join(red)))
+    finally:
+        work.close()
+    return bad
+
+
 def run(args, seed):
     what = args[0] if args else "models"
     t = time.time()
     if what == "models":
         bad = models()
+    elif what == "binding":
+        bad = binding()
     elif what == "reverts":
         bad = reverts(args[1:])
     elif what == "seeded":
